@@ -24,6 +24,8 @@ mod fleet_reader;
 pub use self::fleet_reader::create_approx_matrices;
 
 mod goal_reader;
+#[cfg(reinterpretcat_vrp_verif)]
+pub use self::goal_reader::verif_eval_multi_objective_strategy;
 mod job_reader;
 
 mod problem_reader;
